@@ -202,7 +202,7 @@ class G:
         iterations are called later, after further calls of the same procedure; parameters shadow globals."""
         r = self.rng
         gi = self.vars_of(env, "int")
-        k = r.randrange(11)
+        k = r.randrange(13)
         f, g = self.fresh("sf"), self.fresh("sg")
         n = S(self.fresh("n")) if not gi or r.random() < 0.5 else S(r.choice(gi))      # a parameter that may shadow a global
         acc, x = S(self.fresh("acc")), S(self.fresh("x"))
@@ -277,6 +277,30 @@ class G:
             forms.append(Proc(f, [n.name], None, [], [[[S("lambda"), [], [S("define"), S(n.name), [S("+"), n, 50]], n]], [S("+"), n, 1]]))
             forms.append(Proc(g, [], gv, [], [[S("cons"), a3, S(gv)]]))
             forms += [Call(S(f), [a2]), Call(S(g), []), S(gv), Call(S(g), [1, 2]), S(gv)]
+        elif k == 11:
+            # a chain of closures of ONE lambda expression over different environments, each tail-calling the next directly
+            nxt = S(self.fresh("next"))
+            step = self.tick([S("+"), x, n])
+            forms.append(Proc(f, [n.name, nxt.name], None, [], [[S("lambda"), [x], [S("if"), nxt, [nxt, step], [S("list"), x, n]]]]))
+            links = [self.fresh("c") for _ in range(r.randint(3, 5))]
+            prev = False
+            for i, c in enumerate(links):
+                forms.append([S("define"), S(c), Call(S(f), [r.randint(1, 9) * 10 ** (i % 3), prev])])
+                prev = S(c)
+            forms += [[S(links[-1]), a1], [S(links[1]), a2], [S(links[-1]), a3]]
+            if r.random() < 0.5:
+                # entered by a tail call from another procedure
+                forms.append(Proc(g, [x.name], None, [], [[S(links[-1]), x]]))
+                forms.append(Call(S(g), [a2]))
+        elif k == 12:
+            # continuation-passing accumulators: every continuation is a closure of the same lambda and tail-calls the one it closes over
+            kk, v = S(self.fresh("k")), S(self.fresh("v"))
+            forms.append(Proc(f, [n.name, kk.name], None, [], [[S("lambda"), [v], [kk, self.tick([S("+"), [S("*"), v, 2], n])]]]))
+            e = [S("lambda"), [v], v]
+            for i in range(r.randint(2, 4)):
+                e = Call(S(f), [r.randint(1, 9), e])
+            c = self.fresh("c")
+            forms += [[S("define"), S(c), e], [S(c), a1], [S(c), a2]]
         else:
             # non-tail recursion whose frame variables are read after the inner call returns
             forms.append(Proc(f, [n.name], "r", [], [[S("if"), [S("<="), n, 0], [S("apply"), S("+"), 0, S("r")],
